@@ -662,6 +662,40 @@ func init() {
 								}
 							}
 						}
+						// a growth loop: the allocation doubles a buffer until it holds n bytes — its
+						// size is not derived from n, the number of doublings is (round 7, C17-r7m1)
+						if badv == nil && tv != nil {
+							if _, isMake := in.(*ssa.MakeSlice); isMake {
+								if hdr := enclosingLoop(in.Block()); hdr != nil {
+									for e := range loopExitEdges(hdr) {
+										ifi, ok := e.from.Instrs[len(e.from.Instrs)-1].(*ssa.If)
+										if !ok {
+											continue
+										}
+										cmp, ok := ifi.Cond.(*ssa.BinOp)
+										if !ok {
+											continue
+										}
+										switch cmp.Op {
+										case token.LSS, token.LEQ, token.GTR, token.GEQ:
+										default:
+											continue
+										}
+										for _, pair := range [][2]ssa.Value{{cmp.X, cmp.Y}, {cmp.Y, cmp.X}} {
+											cnt, other := pair[0], pair[1]
+											if !(tv[cnt] || tv[stripConv(cnt)]) || (lenArgOf(other) == nil && capArgOf(other) == nil) {
+												continue
+											}
+											cut := mkCut(t.boundedEdges(fn, cnt), t.boundedEdges(fn, stripConv(cnt)))
+											if _, reach := reachAfter(fn, nil, in, cut, nil); reach {
+												r.bad(key, p.Rel(in.Pos()), what, fmt.Sprintf("the buffer is grown in a loop until it holds %s bytes, and %s derives from a 32/64-bit count read from the input that no comparison bounds", cnt.Name(), cnt.Name()))
+												goto next
+											}
+										}
+									}
+								}
+							}
+						}
 						if badv != nil {
 							r.bad(key, p.Rel(in.Pos()), what, fmt.Sprintf("size operand %s derives from a 32/64-bit count read from the input and no comparison bounds it before the allocation", badv.Name()))
 						} else {
@@ -674,4 +708,16 @@ func init() {
 			return nil
 		},
 	})
+}
+
+// capArgOf: x if v is cap(x).
+func capArgOf(v ssa.Value) ssa.Value {
+	c, ok := stripConv(v).(*ssa.Call)
+	if !ok {
+		return nil
+	}
+	if bi, ok := c.Call.Value.(*ssa.Builtin); ok && bi.Name() == "cap" && len(c.Call.Args) == 1 {
+		return c.Call.Args[0]
+	}
+	return nil
 }
